@@ -346,6 +346,22 @@ theorem rankPath_ok (ext : Ext α) (base : List α) (data : List (α × α)) (τ
           exact ⟨extra, emp, curves, c, hextra, hemp, hcurves, hc, h.symm⟩
         · cases h
 
+/-- if every candidate's CDF evaluates (its `check_fit` passes) the curves are all produced. -/
+theorem allCurves_ok (inf : α) (zl zr : List α) :
+    ∀ cs : List (Cand α), (∀ c ∈ cs, ∀ zs, ∃ r, cdfDiag inf c zs = .ok r) →
+      ∃ xs, allCurves inf zl zr cs = .ok xs := by
+  intro cs
+  induction cs with
+  | nil => intro _; exact ⟨[], rfl⟩
+  | cons c cs ih =>
+    intro h
+    obtain ⟨xs, hxs⟩ := ih (fun c' hc' => h c' (List.mem_cons_of_mem _ hc'))
+    obtain ⟨rl, hrl⟩ := h c (by simp) zl
+    obtain ⟨rr, hrr⟩ := h c (by simp) zr
+    refine ⟨⟨List.zipWith Gen.SelectCopula.candLeft rl zl,
+      List.zipWith Gen.SelectCopula.candRight rr zr⟩ :: xs, ?_⟩
+    simp [allCurves, candCurves, hrl, hrr, hxs]
+
 end Cands
 
 /-! ## C. ranking and arg-max at ℝ -/
@@ -472,6 +488,14 @@ theorem pickIdx_real (l : List ℝ) :
     | nil => rfl
     | cons a l ih => simp [List.filterMap_cons, ih]
   simp only [pickIdx, h1, h2, Gen.SelectCopula.pickMax, if_true]
+
+/-- the arg-max index is in range. -/
+theorem pickIdx_lt (ts : List (ℝ × ℝ × ℝ)) (hne : ts ≠ []) :
+    pickIdx Gen.SelectCopula.pickMax (scores Gen.SelectCopula.rankAscending ts) < ts.length := by
+  rw [scores_real, pickIdx_real]
+  obtain ⟨m, hm, _, _⟩ := argBest_max (ts.map (scoreR ts)) (by simpa using hne)
+  obtain ⟨h, _⟩ := List.getElem?_eq_some_iff.mp hm
+  simpa using h
 
 end Real
 
